@@ -97,7 +97,7 @@ std::optional<long int> get_arg(const std::string& which_arg,
 		    << " should not be empty.\n";
 	  return std::nullopt;
 	}
-      else if (n <= upper_limit)
+      else if (n >= 0 && n <= upper_limit)
 	{
 	  return n;
 	}
